@@ -10,7 +10,8 @@ every accessor (see `viewObs`).
 `tlv`:  `I msg <ctor> <vt> <items>` builds a `MessageWrapper` into the next slot
 (`ctor` ∈ new|sorted|slice; `vt` names the Rust value type and is only
 validated here; items are `tag:kind:payload` with kind `b`/`o` = borrowed/owned
-bytes, `m` = the message in an earlier slot, `f` = a value whose
+bytes, `m` = the message in an earlier slot, `v` = a `MessageView` of that
+slot's encoding (a received message re-used as a value), `f` = a value whose
 `rough_tlv_len` reports the given number and which is never encoded);
 `I enc <slot> <sink>` encodes the slot's message and views the result.
 -/
@@ -106,7 +107,7 @@ def kindAllowed (vt : String) (k : String) : Bool :=
   | "cow" => k == "b" || k == "o"
   | "str" => k == "b" || k == "o"
   | "ref" => k == "b"
-  | "h" => k == "b" || k == "o" || k == "m" || k == "f"
+  | "h" => k == "b" || k == "o" || k == "m" || k == "v" || k == "f"
   | _ => false
 
 def parseItem (s : St) (vt : String) (item : String) : Option (Pair DVal) :=
@@ -129,6 +130,17 @@ def parseItem (s : St) (vt : String) (item : String) : Option (Pair DVal) :=
           match s.slots[i]? with
           | some (some w) =>
             some (UInt32.ofNat t, ⟨w.bytes DVal.bytes DVal.len, w.tlvLen, hasFake w⟩)
+          | _ => none
+        | none => none
+      else if k == "v" then
+        -- `MessageView` of the slot's encoding used as a value: writes its storage, reports its length
+        match payload.toNat? with
+        | some i =>
+          match s.slots[i]? with
+          | some (some w) =>
+            if hasFake w then none else
+            let bs := w.bytes DVal.bytes DVal.len
+            some (UInt32.ofNat t, ⟨bs, bs.length, false⟩)
           | _ => none
         | none => none
       else
